@@ -359,4 +359,68 @@ theorem phaseStep_out (cfg : Cfg) (H : Hashes) (s : State) (op : PhaseOp) (o : O
   | resetcb => simp [phaseStep] at h
   | clearcache => simp [phaseStep] at h
 
+/-! ### histories with re-assigned configuration -/
+
+/-- what one step of any history establishes about its own observation, whatever the configuration -/
+theorem step_gated (cfg : Cfg) (H : Hashes) (s : State) (op : Op) :
+    (∀ ev r, (step cfg H s op).2 = ⟨.gated ev, some r⟩ →
+      ∃ p z y, op = .run p (.ret z) (.ret y) ∧ r = gateResult H cfg.gate p z y) ∧
+    (∀ r, (step cfg H s op).2.result = some r → r.cached = false → r.blocked = false →
+      ∃ ev, (step cfg H s op).2 = ⟨.gated ev, some r⟩) ∧
+    (∀ r, (step cfg H s op).2.result = some r → r.cached = true → (step cfg H s op).2.kind = .cacheHit) := by
+  have hmem : (⟨op, (step cfg H s op).2⟩ : Obs) ∈ (exec cfg H s [op]).2 := by simp [exec]
+  have h1 := exec_gated cfg H [op] s _ hmem
+  have h2 := exec_cached_is_hit cfg H [op] s _ hmem
+  exact ⟨h1.1, h1.2, h2⟩
+
+theorem execR_obs (H : Hashes) (ops : List ROp) : ∀ (cfg : Cfg) (s : State),
+    ∀ o ∈ (execR H cfg s ops).2,
+      (∀ ev r, o.out = ⟨.gated ev, some r⟩ →
+        ∃ p z y, o.op = .run p (.ret z) (.ret y) ∧ r = gateResult H o.cfg.gate p z y) ∧
+      (∀ r, o.out.result = some r → r.cached = false → r.blocked = false → ∃ ev, o.out = ⟨.gated ev, some r⟩) ∧
+      (∀ r, o.out.result = some r → r.cached = true → o.out.kind = .cacheHit) := by
+  induction ops with
+  | nil => intro cfg s o ho; simp [execR] at ho
+  | cons a rest ih =>
+    intro cfg s o ho
+    cases a with
+    | assign c => exact ih c s o (by simpa [execR] using ho)
+    | op x =>
+      simp only [execR] at ho
+      rcases List.mem_cons.mp ho with rfl | ho
+      · exact step_gated cfg H s x
+      · exact ih cfg _ o ho
+
+/-- along every history with re-assignments, every cache hit has its original strictly earlier -/
+theorem execR_originals (H : Hashes) (ops : List ROp) : ∀ (cfg : Cfg) (s : State) (pre : List RObs),
+    CacheFrom H (pre.map RObs.toObs) s.cache →
+    ∀ (tr1 tr2 : List RObs) (o : RObs), (execR H cfg s ops).2 = tr1 ++ o :: tr2 → o.out.kind = .cacheHit →
+      ∃ o' ∈ pre ++ tr1, Original H o'.toObs o.toObs := by
+  induction ops with
+  | nil => intro cfg s pre _ tr1 tr2 o h; simp [execR] at h
+  | cons a rest ih =>
+    intro cfg s pre hpre tr1 tr2 o hsplit hk
+    cases a with
+    | assign c => exact ih c s pre hpre tr1 tr2 o (by simpa [execR] using hsplit) hk
+    | op x =>
+      simp only [execR] at hsplit
+      have hs := step_cacheFrom cfg H s x (pre.map RObs.toObs) hpre
+      cases tr1 with
+      | nil =>
+        simp only [List.nil_append, List.cons.injEq] at hsplit
+        obtain ⟨ho, _⟩ := hsplit
+        subst ho
+        obtain ⟨o', ho', horig⟩ := hs.2 hk
+        obtain ⟨o'', ho'', rfl⟩ := List.mem_map.mp ho'
+        exact ⟨o'', by simpa using ho'', horig⟩
+      | cons b tr1' =>
+        simp only [List.cons_append, List.cons.injEq] at hsplit
+        obtain ⟨hb, hrest⟩ := hsplit
+        have hpre' : CacheFrom H ((pre ++ [(⟨cfg, x, (step cfg H s x).2⟩ : RObs)]).map RObs.toObs) (step cfg H s x).1.cache := by
+          simpa [List.map_append, RObs.toObs] using hs.1
+        obtain ⟨o', ho', horig⟩ := ih cfg (step cfg H s x).1 (pre ++ [(⟨cfg, x, (step cfg H s x).2⟩ : RObs)]) hpre' tr1' tr2 o hrest hk
+        refine ⟨o', ?_, horig⟩
+        subst hb
+        simpa [List.append_assoc] using ho'
+
 end Operon.Cffl
